@@ -620,8 +620,11 @@ func (d *DistKeyGenerator) ProcessResponses(bundles []*ResponseBundle) (
 		if bundle == nil {
 			continue
 		}
-		if d.canIssue && bundle.ShareIndex == d.nidx {
+		if d.canIssue && d.newPresent && bundle.ShareIndex == d.nidx {
 			// just in case we don't treat our own response
+			// (a dealer that is not in the new group has no response of its
+			// own: its nidx is only the zero default and must not hide the
+			// responses of the new share holder with index 0)
 			continue
 		}
 		if !isIndexIncluded(d.c.NewNodes, bundle.ShareIndex) {
